@@ -33,7 +33,7 @@ THEOREMS = {
     "C03": ["C03_decoder_follows_format", "C03_complete_stream", "C17_parse_inverts_write", "ex_frame_spec"],
     "C04": ["C04_frame_total", "C04_stream_total", "C04_frame_progress", "C04_decoded_frame_size", "C16_no_fabricated_frame"],
     "C05": BASE_THEOREMS + ["C05_flipped_frame_rejected", "C05_truncated_frame_is_error", "C05_reject_block_size_code_0", "C05_reject_rate_code_15", "C05_reject_reserved_subframe_type", "C05_reject_coding_method", "C05_reject_negative_shift", "crc16_single_bit", "crc16_append", "crc8_append"],
-    "C14": ["C14_interrupted_file", "C14_interrupted_stream", "C05_truncated_frame_is_error", "C03_decoder_follows_format"],
+    "C14": ["C14_encoder_interrupted_file", "C14_interrupted_file", "C14_interrupted_stream", "C05_truncated_frame_is_error", "C03_decoder_follows_format"],
     "C16": ["C16_encoder_stream_read_back", "ex_stream_read_back", "C16_encoder_frames_scanned", "C16_encoder_frames_self_describing", "ex_encoder_scanned", "C16_no_fabricated_frame", "C16_syncless_garbage_costs_no_frame", "C16_self_describing"],
     "C17": ["C17_parse_inverts_write", "C17_write_inverts_parse", "C17_subframe_write_inverts_parse", "C17_subframe_expands_to_block_size", "C17_parsed_frames_are_well_formed", "C17_parsed_subframes_expand_to_block_size", "ex_frame_wf", "ex_frame_roundtrip"],
     "C19": ["C19_encoder_frame_bound", "C19_encoder_constant_block", "C19_encoder_subframe_bound", "C19_subframe_bound", "C19_frame_bound", "C17_parse_inverts_write"],
@@ -44,7 +44,7 @@ WRITERS = os.path.join(VERIF, "coq", "writers")
 READERS = os.path.join(VERIF, "coq", "readers")
 E2E = os.path.join(VERIF, "coq", "e2e")
 E2E_THEOREMS = ["C01_written_bytes_are_read", "C01_written_channels_are_read", "C01_byte_writer_lossless", "C01_channel_writer_lossless", "C01_end_to_end_bytes", "C01_end_to_end_channels", "C01_written_samples_are_read", "C01_sample_writer_lossless", "C01_end_to_end_samples", "C01_end_to_end_encoder", "C01_end_to_end_sample_writer", "C01_written_metadata_is_read", "C01_end_to_end_nonvacuous"]
-E2E_THEOREMS_BY = {"C01": E2E_THEOREMS, "C02": ["C02_sample_writer_file_valid", "C02_byte_writer_file_valid", "C02_channel_writer_file_valid", "C01_end_to_end_samples", "C01_written_metadata_is_read"]}
+E2E_THEOREMS_BY = {"C01": E2E_THEOREMS, "C14": ["C14_sample_writer_interrupted", "C14_end_to_end_interrupted", "C01_written_metadata_is_read"], "C02": ["C02_sample_writer_file_valid", "C02_byte_writer_file_valid", "C02_channel_writer_file_valid", "C01_end_to_end_samples", "C01_written_metadata_is_read"]}
 E2E_REQUIRES = ["FlacWriters.Meta", "FlacWriters.Params", "FlacWriters.Finalize", "FlacWriters.Writers", "FlacE2E.Bridge", "FlacE2E.E2E", "FlacE2E.Props_E2E"]
 
 
@@ -60,7 +60,7 @@ def proof_stage(chk, pid, theorems=None, requires=None):
             chk, coq_dirs=[BASE, CODEC, WRITERS, READERS, E2E], build_dir=E2E,
             qflags="-Q ../base FlacBase -Q ../codec FlacCodec -Q ../writers FlacWriters -Q ../readers FlacReaders -Q . FlacE2E",
             requires=reqs + E2E_REQUIRES, theorems=E2E_THEOREMS_BY[pid] + thms,
-            obligation_files=[(BASE, ["Res.v", "Bits.v", "Crc.v", "Pins.v"]), (CODEC, coq_files()), (E2E, ["Bridge.v", "E2E.v", "Sample.v", "SampleE2E.v", "Success.v", "ChannelE2E.v", "ByteE2E.v", "ByteSuccess.v", "ChannelSuccess.v", "ReadBridge.v", "ReadersE2E.v", "Props_E2E.v"])],
+            obligation_files=[(BASE, ["Res.v", "Bits.v", "Crc.v", "Pins.v"]), (CODEC, coq_files()), (E2E, ["Bridge.v", "E2E.v", "Sample.v", "SampleE2E.v", "Success.v", "ChannelE2E.v", "ByteE2E.v", "ByteSuccess.v", "ChannelSuccess.v", "InterruptedE2E.v", "ReadBridge.v", "ReadersE2E.v", "Props_E2E.v"])],
             gen_steps=gen)
     return vlib.proof_stage(
         chk, coq_dirs=[BASE, CODEC], build_dir=CODEC, qflags="-Q ../base FlacBase -Q . FlacCodec",
